@@ -154,7 +154,7 @@ def EDATE(
     delta = relativedelta(months=int(months))
     edate = utils.number_to_datetime(int(start_date)) + delta
 
-    if edate <= utils.EXCEL_EPOCH:
+    if edate < utils.EXCEL_EPOCH:
         raise xlerrors.NumExcelError(
             f"Date result before {utils.EXCEL_EPOCH}")
 
@@ -176,7 +176,7 @@ def EOMONTH(
     delta = relativedelta(months=int(months))
     edate = utils.number_to_datetime(int(start_date)) + delta
 
-    if edate <= utils.EXCEL_EPOCH:
+    if edate < utils.EXCEL_EPOCH:
         raise xlerrors.NumExcelError(
             f"Date result before {utils.EXCEL_EPOCH}")
 
